@@ -223,14 +223,12 @@ def dump(tok, symidx=None) -> str:
     return '(?' + s + ''.join(' ' + dump(x) for x in tok) + ')'
 
 
-LEAKS: list = []      # (version, source) after which the parser object was left in a modified state
-
-
 def state_check(ver: str, src: str, p) -> None:
-    """a parse, successful or not, must leave the (cached, reused) parser object as it was: `parse_arguments` is the
-    one flag the syntactic phase toggles.  A leak is recorded once and repaired so that later cases are not affected."""
+    """`XPath1Parser.parse` (xpath1_parser.py:248-251) wraps the syntactic phase in `try … finally:
+    self.parse_arguments = True` ("left False by a failed arrow operator parse").  The harness observes the syntactic
+    phase alone (`tdop.Parser.parse`) on cached parser objects, so it has to do the same reset; without it a failed
+    `x => f +` makes every later case on that parser object read `g(1)` as a name followed by a dynamic call."""
     if getattr(p, 'parse_arguments', True) is not True:
-        LEAKS.append((ver, src))
         p.parse_arguments = True
 
 
@@ -975,6 +973,7 @@ class VInfo:
         self.typed = [r['idx'] for r in rows if r['led']['kind'] == 'typed']
         self.bracket = [r['idx'] for r in rows if r['led']['kind'] == 'bracket']
         self.arrow = [r['idx'] for r in rows if r['led']['kind'] == 'arrow']
+        self.arrow_sym = [r['idx'] for r in rows if r['sym'] == '=>']     # also when its led is not recognised
         self.prefix = [r['idx'] for r in rows if r['nud']['kind'] == 'prefix']
         self.group = [r['idx'] for r in rows if r['nud']['kind'] == 'group']
         self.sym = {r['idx']: r['sym'] for r in rows}
@@ -1127,7 +1126,7 @@ def out_of_fragment_(V: VInfo, toks: list) -> str | None:
     """token-level patterns that the level table does not describe (documented in docs/C04.md)"""
     seen_arrow = False
     for a, b in zip(toks, toks[1:] + [None]):
-        if a[0] == 'o' and a[1] in V.arrow:
+        if a[0] == 'o' and a[1] in V.arrow_sym:
             seen_arrow = True
             if b is not None and b[0] == 'a' and b[1] == 7:
                 return 'arrow-keyword-function-name'   # `x => div(1)`: valid EQName, the led wants a (name) token
@@ -1154,7 +1153,7 @@ def out_of_fragment_(V: VInfo, toks: list) -> str | None:
                 and V.ver.startswith('31'):
             return 'lookup-after-type'
     for i, (a, b) in enumerate(zip(toks, toks[1:])):
-        after_arrow = i > 0 and toks[i - 1][0] == 'o' and toks[i - 1][1] in V.arrow
+        after_arrow = i > 0 and toks[i - 1][0] == 'o' and toks[i - 1][1] in V.arrow_sym
         if a[0] == 't' and b[0] == 'o' and V.sym[b[1]] == '?' and (a[1] % 4 != 0 or a[1] // 4 == 0):
             return 'lookup-after-type'               # `T? ? k`: outside the EBNF; accepted or not depending on the kind of type
         if a[0] == 't' and b[0] == 'a' and b[1] in (6, 7):
@@ -1770,6 +1769,15 @@ def corpus_cases() -> list[tuple[str, list]]:
 
 
 # --------------------------------------------------------------------------------- search
+def led_tail_of(V, o, operand):
+    k = V.rows[o]['led']['kind']
+    if k == 'infix':
+        return [('o', o), operand]
+    if k == 'typed':
+        return [('o', o), ('t', 4)]
+    return [('o', o), ('a', 1, 1), ('c', V.rows[o]['led']['close'])]
+
+
 def search(run: Run):
     """all expressions `a o1 b`, `a o1 b o2 c`, `p a o1 b`, `a o1 p b` and typed/bracket combinations over
     all ordered pairs of modelled operators of every version, without parentheses; real parser vs EBNF."""
@@ -1805,6 +1813,27 @@ def search(run: Run):
             for p in V.prefix:
                 if comma is not None:
                     cases.append((v, [('o', g), ('o', p)] + U[0] + [('o', comma), ('o', p)] + U[1] + [('c', gc)]))
+
+        if V.arrow_sym and V.group:
+            # arrow forms (also when the led of `=>` is not recognised by the translator): valid and invalid
+            # specifiers / argument lists, and `=>` against every other operator on both sides
+            ar, g, gc = ('o', V.arrow_sym[0]), ('o', V.group[0]), ('c', V.rows[V.group[0]]['nud']['close'])
+            call = [ar, ('a', 0, 3), g, gc]
+            specs = [[('a', 0, 2)], [('a', 2, 1)], [('a', 8, 0)], [g, ('a', 0, 2), gc], [('a', 1, 2)], [('a', 3, 1)],
+                     [('a', 2, 1), ('o', V.idx['?']), ('a', 0, 2)] if '?' in V.idx else [('a', 2, 2)]]
+            argls = [[g, gc], [g, ('a', 1, 1), gc], [g, ('a', 1, 1), ('o', V.idx[',']), ('a', 1, 2), gc], [('a', 1, 2)], [],
+                     [g, gc, g, gc], [('o', V.idx['[']), ('a', 1, 1), ('c', 1)]]
+            for sp_ in specs:
+                for al in argls:
+                    cases.append((v, [A[0], ar] + sp_ + al))
+                    cases.append((v, [A[0], ar] + sp_ + al + call))
+            for o in V.infix + V.typed + V.bracket:
+                cases.append((v, [A[0]] + call + led_tail_of(V, o, A[1])))
+                cases.append((v, [A[0]] + led_tail_of(V, o, A[1]) + call))
+                cases.append((v, [A[0]] + call + led_tail_of(V, o, A[1]) + call))
+            for p_ in V.prefix:
+                cases.append((v, [('o', p_), A[0]] + call))
+                cases.append((v, [A[0], ar, ('o', p_), A[1], g, gc]))
 
         def led_tail(o, operand):
             k = V.rows[o]['led']['kind']
@@ -1983,29 +2012,6 @@ def correspond(run: Run) -> None:
     alternatives_pass(run)
     hashseed_pass(run)
     permutation_pass(run)
-    state_pass(run)
-
-
-def trig_f04n(src: str) -> bool:
-    """trigger of finding F04n: the source has an arrow operator (whose function specifier fails to parse)"""
-    return '=>' in src
-
-
-def state_pass(run: Run) -> None:
-    """no parse may leave the parser object modified (checked after every parse of the run, see `state_check`)"""
-    for v in ALL_VERSIONS:
-        if base_of(v) == '31':
-            impl_parse(v, 'n1 => n2 +')         # witness: a syntax error inside the function specifier
-            impl_parse(v, 'n1 => ( n2 + ) ( )')
-    seen = set()
-    run.stats.count('parser-state-checked')
-    for v, src in LEAKS:
-        if (v, src) in seen or len(seen) >= 25:
-            continue
-        seen.add((v, src))
-        run.disagree(Disagreement({'version': v, 'source': src}, 'parse_arguments=False', None, 'parse_arguments=True',
-                                  what='parser-state-after-parse', site='led__arrow_operator',
-                                  tags=['F04n'] if trig_f04n(src) else []))
 
 
 # constructs outside the abstract alphabet whose grouping is fixed by the EBNF: (first version, source, tree
